@@ -1320,7 +1320,8 @@ impl AstType {
                     _ => None,
                 }
             }
-            TypeKind::Wildcard => None,
+            // `_` stands for the type inferred for this annotation, once inference has run
+            TypeKind::Wildcard => ctx.solution_of_node(self.node()),
             TypeKind::Void => Some(SolvedType::Void),
             TypeKind::Int => Some(SolvedType::Int),
             TypeKind::Float => Some(SolvedType::Float),
